@@ -541,6 +541,8 @@ class ContainerEngine:
                         "dump": dump_signature(dump(w.containers[k]))})
         if violation is None and len(w.containers) > 1:
             violation = self.check_cross(len(run["ops"]))
+        if violation is None and len(w.containers) > 1:
+            violation = self.check_folder(len(run["ops"]))
         probes["fault positions enumerated"] = self.enum_positions
         return {"violation": violation, "log_digest": core.digest(log),
                 "log": log, "probes": dict(probes), "faults": dict(faults),
@@ -928,6 +930,80 @@ class ContainerEngine:
                     if v:
                         v["site"] = "cross-load:" + v["site"]
                         return v
+        return None
+
+    def check_folder(self, i):
+        """The training-set view of a FOLDER of containers (the documented
+        input of RateManager): every stored curve contributes exactly one
+        (rating features, user rating) pair - those of the curve that was
+        stored. Compared as a multiset, so no order is demanded."""
+        import nanite.rate.io as rio
+        from nanite.rate.features import IndentationFeatures
+        w = self.w
+        have = [k for k, p_ in enumerate(w.containers) if p_.exists()
+                and w.ref[k]]
+        if len(have) < 2:
+            return None
+        if any(e["state"] != "stored" or "user_new" in e
+               for k in have for e in w.ref[k].values()):
+            return None
+        PLAN.disarm()
+        PLAN.set_phase(None)
+        feats = {"op": "folder"}
+        folder = w.scratch / "folder_of_containers"
+        folder.mkdir()
+        try:
+            # file names in the reverse of the order of the containers
+            for n, k in enumerate(reversed(have)):
+                shutil.copy(w.containers[k], folder / f"day{n}_r{k}.h5")
+            try:
+                with warnings.catch_warnings():
+                    warnings.simplefilter("ignore")
+                    nper = sum(len(rio.load_hdf5(p_, meta_only=True))
+                               for p_ in sorted(folder.glob("*.h5")))
+                    rm = rio.RateManager(folder)
+                    rates = list(rm.get_rates("user"))
+                    sm = np.asarray(rm.samples)
+                    nrt = len(rio.RateManager(folder).ratings)
+            except _caught() as e:
+                return make_violation(
+                    self.prop, "K1", f"folder-raises:{type(e).__name__}",
+                    feats, f"RateManager over a folder of containers "
+                    f"raised {type(e).__name__}: {str(e)[:120]}", i)
+        finally:
+            shutil.rmtree(folder, ignore_errors=True)
+        self.oracle_checks += 1
+        want = []
+        for k in have:
+            for e in w.ref[k].values():
+                orig = w.curve(e["ci"], e["variant"])
+                with warnings.catch_warnings():
+                    warnings.simplefilter("ignore")
+                    fa = np.asarray(
+                        IndentationFeatures.compute_features(orig),
+                        dtype=float)
+                want.append((digest_array(fa), repr(float(e["user"]["rate"]))))
+        if nper != len(want):
+            # the containers hold something the reference does not know
+            # about (or the reverse): decided by the per-container checks
+            self.probes["folder view skipped (entry count)"] += 1
+            return None
+        self.probes["folder of containers read through RateManager"] += 1
+        if not (len(rates) == sm.shape[0] == nrt == len(want)):
+            return make_violation(
+                self.prop, "K1", "folder-count", feats,
+                f"RateManager over a folder of {len(have)} containers with "
+                f"{len(want)} stored curves: {len(rates)} user ratings, "
+                f"{sm.shape[0]} feature rows, {nrt} entries", i)
+        got = [(digest_array(np.asarray(sm[n_], dtype=float)),
+                repr(float(rates[n_]))) for n_ in range(len(rates))]
+        if sorted(got) != sorted(want):
+            return make_violation(
+                self.prop, "K1", "folder-pairs", feats,
+                "RateManager over a folder of containers: the (rating "
+                "features, user rating) pairs are not those of the curves "
+                "that were stored (features and ratings of different "
+                "curves are paired)", i)
         return None
 
     def compare_entry(self, r, orig, user, feats, i, rule="K1"):
